@@ -19,6 +19,9 @@ import kani_run
 import props as P
 
 REPO = os.environ.get('VERIF_REPO', '/repo')
+EVID_DIR = os.environ.get('VERIF_EVIDENCE_DIR', os.path.join(VERIF, 'evidence'))
+REPLAY_DIR = os.environ.get('VERIF_REPLAY_DIR', os.path.join(VERIF, 'replay'))
+KANI_OFF = os.environ.get('VERIF_KANI', '') == 'off'   # selftest only: skip Kani (reported, never silently)
 
 
 def log(*a):
@@ -152,8 +155,10 @@ def check_property(pid, tier):
     t0 = time.time()
     prop = P.PROPS[pid]
     seed = int(os.environ.get('VERIF_SEED', '0') or 0)
-    os.makedirs(os.path.join(VERIF, 'evidence'), exist_ok=True)
-    os.makedirs(os.path.join(VERIF, 'replay'), exist_ok=True)
+    os.makedirs(EVID_DIR, exist_ok=True)
+    os.makedirs(REPLAY_DIR, exist_ok=True)
+    for old in glob.glob(os.path.join(REPLAY_DIR, pid + '-*.json')):
+        os.remove(old)
     known = load_known()
     undecided = []
     violations = []      # (obligation id, detail dict)
@@ -163,6 +168,9 @@ def check_property(pid, tier):
     kani_wall = 0.0
     kani_cmd = ''
     harnesses = prop.get('kani', {}).get(tier, prop.get('kani', {}).get('quick', []))
+    if KANI_OFF:
+        log('NOTE: VERIF_KANI=off - Kani harnesses %s skipped (selftest mode)' % [h for h, _ in harnesses])
+        harnesses = []
 
     with cf.ThreadPoolExecutor(max_workers=10) as ex:
         futs = {u: ex.submit(vrun.run_unit, u, REPO) for u in prop['units']}
@@ -310,7 +318,7 @@ def check_property(pid, tier):
         # witness search (counterexample from Kani concrete playback where a cex harness exists)
         for n, (ob, detail) in enumerate(violations):
             witness = find_witness(pid, ob, detail)
-            path = os.path.join(VERIF, 'replay', '%s-%d.json' % (pid, n + 1))
+            path = os.path.join(REPLAY_DIR, '%s-%d.json' % (pid, n + 1))
             doc = {'property': pid, 'obligation': ob, 'detail': detail, 'witness': witness,
                    'repo_head': git_head(), 'how_to_replay': './check replay %s' % path}
             json.dump(doc, open(path, 'w'), indent=1)
@@ -353,7 +361,7 @@ def check_property(pid, tier):
         'wall_s': round(wall, 2),
         'violations': len(violations),
     }
-    json.dump(ev, open(os.path.join(VERIF, 'evidence', pid + '.json'), 'w'), indent=1)
+    json.dump(ev, open(os.path.join(EVID_DIR, pid + '.json'), 'w'), indent=1)
     for l in viol_lines:
         log(l)
     for u in undecided:
